@@ -12,6 +12,14 @@ use proptest::collection::vec;
 use proptest::prelude::*;
 use serde::{Deserialize, Serialize};
 
+/// Integer fields: the whole range plus the values where width, sign and
+/// carry mistakes show (0, 1, all ones, top bit only, all but the top bit).
+macro_rules! edgy {
+    ($t:ty) => {
+        prop_oneof![6 => any::<$t>(), 1 => Just(0 as $t), 1 => Just(1 as $t), 1 => Just(<$t>::MAX), 1 => Just(<$t>::MAX - 1), 1 => Just(1 << (<$t>::BITS - 1)), 1 => Just(<$t>::MAX >> 1)]
+    };
+}
+
 /// Monotone map of a 16-bit fraction onto 0..n (n > 0): shrinking the
 /// fraction shrinks the index.
 pub fn pick(frac: u16, n: usize) -> usize {
@@ -101,8 +109,8 @@ pub fn adc_valid() -> impl Strategy<Value = AdcModel> {
     (
         adc_samples(),
         (any::<bool>(), any::<bool>(), any::<u16>(), 0u16..40, 0u8..10),
-        (any::<u16>(), 0u8..8, 0u8..48, any::<u32>(), any::<u32>()),
-        (0usize..8, any::<i32>(), any::<u32>(), 0u8..4, any::<i16>()),
+        (any::<u16>(), 0u8..8, 0u8..48, edgy!(u32), edgy!(u32)),
+        (0usize..8, edgy!(i32), edgy!(u32), 0u8..4, any::<i16>()),
     )
         .prop_map(|(samples, (suppression, keep, kl_frac, req_extra, short), (trig, module, ch, lsw, msw), (board, off, build, unused, short_base))| {
             let n = samples.len();
@@ -294,7 +302,7 @@ pub fn payload_bytes() -> impl Strategy<Value = Vec<u8>> {
 }
 
 pub fn chunk_valid_with(payload: impl Strategy<Value = Vec<u8>>) -> impl Strategy<Value = ChunkModel> {
-    (0usize..71, any::<u32>(), any::<u16>(), 0u8..4, 0u8..2, any::<u16>(), payload).prop_map(|(board, ps, cs, chip, flags, id, payload)| ChunkModel {
+    (0usize..71, edgy!(u32), edgy!(u16), 0u8..4, 0u8..2, edgy!(u16), payload).prop_map(|(board, ps, cs, chip, flags, id, payload)| ChunkModel {
         device_id: PADWING_BOARDS[board].2,
         packet_seq: ps,
         channel_seq: cs,
@@ -401,10 +409,11 @@ pub fn pwb_requested() -> impl Strategy<Value = u16> {
 }
 
 pub fn pwb_valid() -> impl Strategy<Value = PwbModel> {
+    let ts48 = prop_oneof![6 => any::<u64>(), 2 => Just(0u64), 1 => Just(1u64), 1 => Just((1u64 << 48) - 1), 1 => Just(1u64 << 47), 1 => Just((1u64 << 47) - 1), 1 => Just(0xFFFF_0000_0000u64), 1 => Just(0xFFFFu64)];
     (
         (pwb_mask(), pwb_mask(), pwb_requested()),
-        (0u8..4, prop_oneof![Just(0u8), Just(1), Just(3)], 0usize..71, any::<u16>(), any::<u64>()),
-        (0u16..=511, any::<u32>(), any::<u16>(), any::<u8>(), any::<u8>()),
+        (0u8..4, prop_oneof![Just(0u8), Just(1), Just(3)], 0usize..71, edgy!(u16), ts48),
+        (prop_oneof![6 => 0u16..=511, 1 => Just(0u16), 1 => Just(511u16), 1 => Just(256u16), 1 => Just(255u16)], edgy!(u32), edgy!(u16), edgy!(u8), edgy!(u8)),
         any::<u64>(),
     )
         .prop_map(|((sent, thr, requested), (chip, trigger, board, delay, ts), (last_sca, ec, fifo, wd, rd), sample_seed)| {
@@ -489,7 +498,7 @@ pub fn pwb_mut() -> impl Strategy<Value = PwbMut> {
         1 => any::<u8>().prop_map(PwbMut::Compression),
         2 => any::<u8>().prop_map(PwbMut::Trigger),
         1 => (0u8..6, any::<u8>()).prop_map(|(i, v)| PwbMut::MacByte(i, v)),
-        1 => (any::<u8>(), any::<u8>()).prop_map(|(a, b)| PwbMut::Zero(a, b)),
+        2 => (prop_oneof![2 => any::<u8>(), 1 => Just(0u8), 1 => Just(1u8), 1 => Just(0x80u8), 1 => Just(0xFFu8)], prop_oneof![2 => any::<u8>(), 2 => Just(0u8), 1 => Just(1u8), 1 => Just(0x80u8), 1 => Just(0xFFu8)]).prop_map(|(a, b)| PwbMut::Zero(a, b)),
         2 => prop_oneof![Just(511u16), Just(512), Just(65535), any::<u16>()].prop_map(PwbMut::LastSca),
         3 => prop_oneof![Just(0u16), Just(1), Just(511), Just(512), Just(65535), 0u16..520].prop_map(PwbMut::RequestedHeader),
         3 => (0u8..80).prop_map(PwbMut::SentBit),
@@ -584,10 +593,10 @@ pub fn boundary_u32() -> impl Strategy<Value = u32> {
 /// Valid TRG packet: counters drawn as a sorted quadruple with ties.
 pub fn trg_valid() -> impl Strategy<Value = TrgModel> {
     (
-        (boundary_u32(), 0u8..3, 0u8..3, 0u8..3, any::<u32>()),
-        (boundary_u32(), boundary_u32(), any::<u32>(), any::<u32>(), any::<u32>()),
-        (any::<bool>(), any::<u16>(), any::<u8>(), any::<u16>(), any::<u64>()),
-        (any::<u8>(), any::<u8>(), any::<u32>(), 0u32..0x8000_0000, 0u8..16),
+        (boundary_u32(), 0u8..3, 0u8..3, 0u8..3, edgy!(u32)),
+        (boundary_u32(), boundary_u32(), edgy!(u32), edgy!(u32), edgy!(u32)),
+        (any::<bool>(), edgy!(u16), edgy!(u8), edgy!(u16), edgy!(u64)),
+        (edgy!(u8), edgy!(u8), edgy!(u32), 0u32..0x8000_0000, 0u8..16),
     )
         .prop_map(|((base, d1, d2, d3, big), (ts, pulser, tb, nim, esata), (mlu, prompt, awm, awb, bsc), (bscm, latch, fw, udp, hi))| {
             // output <= scaledown <= drift <= input with steps 0, 1 or large.
@@ -730,6 +739,9 @@ pub enum MsgFault {
     ToggleEom(u16),
     /// payload of non-final chunk i shortened (-1) or lengthened (+1)
     Resize(u16, bool),
+    /// chunk i re-encoded with its chunk id raised by 1..=3: leaves a gap in
+    /// the ids, or repeats one (a lone chunk then no longer has id 0)
+    Renumber(u16, u8),
 }
 pub fn msg_fault() -> impl Strategy<Value = MsgFault> {
     prop_oneof![
@@ -739,6 +751,7 @@ pub fn msg_fault() -> impl Strategy<Value = MsgFault> {
         (any::<u16>(), 1u8..4).prop_map(|(i, c)| MsgFault::ForeignChip(i, c)),
         any::<u16>().prop_map(MsgFault::ToggleEom),
         (any::<u16>(), any::<bool>()).prop_map(|(i, up)| MsgFault::Resize(i, up)),
+        (any::<u16>(), 1u8..=3).prop_map(|(i, d)| MsgFault::Renumber(i, d)),
     ]
 }
 
@@ -822,6 +835,11 @@ impl MsgCase {
             }
             MsgFault::ToggleEom(i) => {
                 c[pick(i, n)].flags ^= 1;
+                true
+            }
+            MsgFault::Renumber(i, d) if n >= 1 => {
+                let k = pick(i, n);
+                c[k].chunk_id = c[k].chunk_id.wrapping_add(d as u16);
                 true
             }
             MsgFault::Resize(i, up) if n >= 3 => {
